@@ -1,42 +1,50 @@
 #!/bin/bash
-# tools/seedcheck.sh <PROP> <agent-worktree> [checks...]  — confirm a seeded change and run checks against it
+# tools/seedcheck.sh <PROP> <agent-worktree|-> [checks...]  — confirm a seeded change and run checks against it.
+#   "-" re-runs the stored seed /verif/seeded/$SEEDNAME against the current /repo HEAD.
+# The seeded change is applied in a scratch worktree of /repo (never to /repo itself); the checks are pointed at
+# that worktree with GOSX_REPO and write their evidence/replays to a scratch directory (GOSX_OUT), so this script
+# can run next to other work.  Both scratch directories are removed at the end.
 export GOFLAGS=-mod=mod GOPROXY=off GOSUMDB=off GOTOOLCHAIN=local
 P=$1; WT=$2; shift 2; CHECKS=${@:-$P}
 NAME=${SEEDNAME:-$P}
 D=/verif/seeded/$NAME
 mkdir -p $D
+if [ "$WT" != "-" ]; then
 cp $WT/_seed/patch.diff $D/patch.diff
 cp $WT/_seed/demo_test.go $D/demo_test.go 2>/dev/null
 cp $WT/_seed/NOTES.md $D/NOTES.md 2>/dev/null
+fi
 C=/tmp/confirm_$NAME
+O=/tmp/seedout_$NAME
+rm -rf $O; mkdir -p $O
 git -C /repo worktree remove --force $C 2>/dev/null
 git -C /repo worktree add -q --detach $C HEAD
 cd $C
 cp $D/demo_test.go ./zz_seed_demo_test.go
 CLEAN=$(go test -vet=off -count=1 -run TestSeedDemo . 2>&1 | tail -1)
-git apply $D/patch.diff || { echo "PATCH DOES NOT APPLY"; }
+git apply $D/patch.diff || { echo "PATCH DOES NOT APPLY"; cd /verif; git -C /repo worktree remove --force $C; exit 1; }
 rm -f zz_seed_demo_test.go
 SUITE=$(go test -vet=off -count=1 ./... 2>&1 | grep -v "no test files" | tail -2 | tr '\n' ' ')
 cp $D/demo_test.go ./zz_seed_demo_test.go
 SEEDED=$(go test -vet=off -count=1 -run TestSeedDemo . 2>&1 | tail -1)
+rm -f zz_seed_demo_test.go
 cd /verif
-git -C /repo worktree remove --force $C
 echo "demo on clean tree: $CLEAN"
 echo "suite with patch:   $SUITE"
 echo "demo with patch:    $SEEDED"
-git -C /repo apply $D/patch.diff || exit 1
 RES=""
 for c in $CHECKS; do
-  OUT=$(timeout 1800 ./check $c 2>&1)
+  OUT=$(GOSX_REPO=$C GOSX_OUT=$O timeout 3600 ./check $c 2>&1)
   RC=$?
   NV=$(echo "$OUT" | grep -c "^VIOLATION")
   FIRST=$(echo "$OUT" | grep -A1 "^VIOLATION" | head -2 | tail -1 | cut -c1-300)
   echo "check $c: exit=$RC violations=$NV :: $FIRST"
   RES="$RES{\"check\":\"$c\",\"exit\":$RC,\"violations\":$NV},"
 done
-git -C /repo checkout -- .
-git -C /repo status --short | head -3
+git -C /repo worktree remove --force $C
+rm -rf $O
 printf '%s\n' "$CLEAN" > $D/.clean; printf '%s\n' "$SUITE" > $D/.suite; printf '%s\n' "$SEEDED" > $D/.seeded; printf '[%s]' "${RES%,}" > $D/.res
+git -C /repo rev-parse --short HEAD > $D/.head
 python3 - "$P" "$NAME" "$D" <<'PY'
 import json,sys,os
 P,NAME,D=sys.argv[1:4]
@@ -46,11 +54,11 @@ mp=os.path.join(D,"meta.json")
 if os.path.exists(mp):
     try:
         old=json.load(open(mp)); hist=old.get("detection_history",[])
-        if old.get("checks_run"): hist.append({"checks_run":old["checks_run"],"note":old.get("note","earlier run (before the checks were strengthened)")})
+        if old.get("checks_run"): hist.append({"checks_run":old["checks_run"],"repo_head":old.get("repo_head",""),"note":old.get("note","earlier run")})
     except Exception: pass
-meta={"detection_history":hist,"property":P,"name":NAME,"demo_on_clean_tree":rd(".clean"),"existing_suite_with_patch":rd(".suite"),"demo_with_patch":rd(".seeded"),
+meta={"detection_history":hist,"property":P,"name":NAME,"repo_head":rd(".head"),"demo_on_clean_tree":rd(".clean"),"existing_suite_with_patch":rd(".suite"),"demo_with_patch":rd(".seeded"),
  "checks_run":json.loads(rd(".res")),"what_it_needs":open(os.path.join(D,"NOTES.md")).read() if os.path.exists(os.path.join(D,"NOTES.md")) else ""}
 json.dump(meta,open(os.path.join(D,"meta.json"),"w"),indent=1)
-for f in (".clean",".suite",".seeded",".res"): os.remove(os.path.join(D,f))
+for f in (".clean",".suite",".seeded",".res",".head"): os.remove(os.path.join(D,f))
 print("meta written:",[ (c["check"],c["exit"],c["violations"]) for c in meta["checks_run"]])
 PY
